@@ -15,6 +15,11 @@ CLAIMED = {
         technique='deterministic simulation: controller crash at every proposal prefix with in-flight rewards and two persistence orders, restart from a JSON trial store, comparison with the uninterrupted controller, then bounded continuation once faults stop',
         text='Seeded exploration over (algorithm configuration, DNASpec, run length) x crash scenarios (crash after k proposals, last w rewards in flight, DNA metadata persisted before/after feedback). A fresh instance recovers from a JSON store and is compared with the uninterrupted one (counts, population with fitness, de-duplication memory through the inner generator and continuation); deterministic algorithms must continue identically. Sampling of configurations, near-enumeration of crash points per configuration.',
         note='Trusted: the uninterrupted controller can be rebuilt to any prefix because every algorithm is seeded; the trial store and evaluation are stubs; rewards arrive in proposal order with a fixed lag. One listed known finding (dropped duplicates under Deduping(Random)).'),
+    'C17': dict(
+        engine='scopes', design='§4.1',
+        technique='deterministic simulation: seeded enter/exit/raise programs over all scoped-setting context managers on 1-4 real threads under a seeded scheduler; per-thread reference stack checked before and after every event, restoration checked at the end',
+        text='Seeded exploration of well-nested scope programs (19 managers, all argument values, exception exits through 1..6 levels, explicit propagation) on 1-4 scheduled threads. Every getter and a behavioural probe per setting is compared with the thread\'s own reference stack around every event; after the last exit everything must equal the initial observation. Sampling, not enumeration.',
+        note='Trusted: the reference nesting rules (validated against the unchanged tree on single-thread programs), the scheduler, real threading.local on real threads. Process-wide managers are driven from one thread only. Exceptions are raised between library calls, not asynchronously inside them.'),
 }
 
 NOT_APPLICABLE = {}
